@@ -411,14 +411,7 @@ where
         index: usize,
         entity_allocator: &mut entity::Allocator<R>,
     ) {
-        // SAFETY: `self.components` contains the same number of bits as are set in
-        // `self.identifier`. Also, each entry is `self.components` is guaranteed to contain the
-        // raw parts for a valid `Vec<C>` for each `C` identified by `self.identifier`. Finally,
-        // `self.identifier` is generic over the same registry `R` as this method is being called
-        // on.
-        unsafe {
-            R::remove_component_row(index, &self.components, self.length, self.identifier.iter());
-        }
+        let length = self.length;
 
         let mut entity_identifiers = ManuallyDrop::new(
             // SAFETY: `self.entity_identifiers` is guaranteed to contain the raw parts for a valid
@@ -449,6 +442,19 @@ where
         entity_identifiers.swap_remove(index);
 
         self.length -= 1;
+
+        // The components are removed last. Removing them runs their destructors; should one of
+        // those panic, the bookkeeping above already describes columns of `self.length` rows, so
+        // the values left behind are leaked rather than dropped a second time with the archetype.
+        //
+        // SAFETY: `self.components` contains the same number of bits as are set in
+        // `self.identifier`. Also, each entry is `self.components` is guaranteed to contain the
+        // raw parts for a valid `Vec<C>` of length `length` for each `C` identified by
+        // `self.identifier`. Finally, `self.identifier` is generic over the same registry `R` as
+        // this method is being called on.
+        unsafe {
+            R::remove_component_row(index, &self.components, length, self.identifier.iter());
+        }
     }
 
     /// # Safety
